@@ -335,6 +335,21 @@ def run_trace(trace_path, nshards=8, timeout=3000, module="TzRsTrace", min_event
             if m:
                 states += int(m.group(2).replace(",", ""))
         if done is None or done[0] != n:
+            # An evaluation error inside TLC while judging one event means that event's logged result lies outside the domain of the
+            # specification's operators (a string where a number must be, a type index beyond the list ...). The unchanged tree
+            # never does this, so it is reported as a disagreement at that event (the rest of the shard stays unjudged). A JVM that
+            # was killed, ran out of memory or timed out prints no such message and remains a tool error.
+            m_last = None
+            if "The error occurred when TLC was evaluating" in outp or "TLC threw an unexpected exception" in outp:
+                for m_ in re.finditer(r"^/\\ vL = (\d+)$", outp, re.M):
+                    m_last = int(m_.group(1))
+            if m_last is not None and 1 <= m_last <= n:
+                lines = open(p).read().splitlines()
+                why = next((l.strip() for l in outp.splitlines() if l.startswith(": Attempted") or "was not in the domain" in l or "Attempted to" in l), "")
+                bad.append((off + m_last - 1, "result-outside-the-specification", lines[m_last - 1], None, [], ["tlc: " + why[:300], f"{n - m_last} later events of this shard not judged"]))
+                events += m_last
+                os.remove(p)
+                continue
             errl = [l for l in outp.splitlines() if "rror" in l][:15]
             raise ToolError(f"trace validation of {p} did not consume the trace ({done and done[0]} of {n}):\n" + "\n".join(errl) + "\n" + outp[-1500:])
         events += n
